@@ -88,6 +88,10 @@ def corpus():
         # a front application hands a copy of its request to a backend; the environ carries the read-only flag
         _arr(2, [_call(0, 'tA', [['see'], ['call_copy', 1, [['see'], ['hdr', 'X-B', 'tAcch']]], ['see']], readonly=True)]),
         _arr(2, [_call(1, 'tA', [['see'], ['call_copy', 0, [['see']]], ['see'], ['copy'], ['see']])], default=True),
+        # redirect() works for the default application ...
+        _arr(2, [_call(0, 'tA', [['see'], ['redirect', '?to=tA']])], default=True),
+        # ... and (finding C10-redirect-default-app) reads the default application's request from any other one
+        _arr(2, [_call(0, 'tA', [['see'], ['call', _call(1, 'tB', [['redirect', '?to=tB']])], ['see']])], default=True),
         _arr(3, [_call(1, 'tA', [['call', _call(2, 'tB', [['call', _call(0, 'tD', [['see']])], ['see']])], ['see'],
                                  ['form_see']], method='POST', form='f=tAf', cookie='c=tAc')], default=True),
     ]
@@ -194,6 +198,8 @@ def _gen_script(rng, tok, napps, depth, counter, busy=()):
         script.append(['boom'])
     elif r < 0.22:
         script.append(['gen', rng.randrange(1, 4)])
+    elif r < 0.27:
+        script.append(['redirect', '?to=' + tok])
     else:
         script.append(['see'])
     return script
@@ -393,7 +399,7 @@ def classify(case, obs):
             if a[0] == 'call':
                 kinds.add('nested')
                 walk(a[1], depth + 1)
-            elif a[0] in ('copy', 'new_app', 'abort', 'boom', 'gen', 'call_copy'):
+            elif a[0] in ('copy', 'new_app', 'abort', 'boom', 'gen', 'call_copy', 'redirect'):
                 kinds.add(a[0])
         if c.get('readonly'):
             kinds.add('readonly')
@@ -433,7 +439,25 @@ def shrink(case):
         yield dict(case, default=False)
 
 
-PREDICATES = {}
+def _redirect_outside_default_app(case, what, m):
+    """the failure is about redirect() and the case calls it from a handler of an application that is not the
+    module-level default application"""
+    if case.get('kind') != 'arr' or 'redirect()' not in str(what):
+        return False
+
+    def walk(c):
+        if c.get('construct'):
+            return False
+        for a in c['script']:
+            if a[0] == 'redirect' and not (case.get('default') and c['app'] == 0):
+                return True
+            if a[0] == 'call' and walk(a[1]):
+                return True
+        return False
+    return any(walk(c) for c in case['calls'])
+
+
+PREDICATES = {'redirect_outside_default_app': _redirect_outside_default_app}
 
 MANIFEST = dict(
     text=('Proof: theorems C10_instance_independent and C10_nested_calls (Coq, closed under the global context) state for '
